@@ -54,7 +54,8 @@ func (f *OrefaFile) Chdir() error {
 		return &fs.PathError{Op: op, Path: f.name, Err: err}
 	}
 
-	_ = f.vfs.SetCurDir(f.name)
+	// the current directory is an absolute path, whatever the name the directory was opened with.
+	_ = f.vfs.SetCurDir(f.absPath)
 
 	return nil
 }
